@@ -207,7 +207,17 @@ class Vector3D:
     def get_length(self):
         return MATH.sqrt(self.x * self.x + self.y * self.y + self.z * self.z)
 
-    length = property(get_length)
+    def set_length(self, v):
+        """raysect Vector3D.set_length: ZeroDivisionError for the zero vector, else rescale by v / sqrt(x^2 + y^2 + z^2)"""
+        t = self.x * self.x + self.y * self.y + self.z * self.z
+        if t == 0.0:
+            raise ZeroDivisionError('A zero length vector can not be rescaled as the direction of a zero length vector is undefined.')
+        t = v / MATH.sqrt(t)
+        self.x = self.x * t
+        self.y = self.y * t
+        self.z = self.z * t
+
+    length = property(get_length, set_length)
 
     def normalise(self):
         l = self.get_length()
